@@ -193,8 +193,11 @@ type Obligation struct {
 	Trace    []string
 	Pos      string
 	Script   string
+	Prefix   string // script up to (not including) the goal assertion
+	Group    string // obligations of one group share Prefix and are first tried as one conjunction
 	Goal     string
 	Result   SolveResult
+	Candidate bool // Result.Model comes from the weakened query (quantified assumptions dropped)
 	MustFail bool // vacuity canary: expected sat
 	Values   []string // terms whose values are requested from the model
 	Labels   map[string]string // term -> readable label
@@ -219,7 +222,9 @@ type VC struct {
 	debugNames map[*ssa.Function]map[string][]*ssa.DebugRef
 	entry    *State
 	params   map[string]SV
-	oblCount map[string]int
+	curIns   ssa.Instruction
+	groupKey string
+	groupPrefix string
 	valueNames []string
 	valueLabels map[string]string
 	extraValues []string
@@ -231,6 +236,8 @@ type VC struct {
 	lockCheck bool
 	curFrame *Frame
 	key      string
+	nprune   int
+	npruned  int
 }
 
 func (vc *VC) note(format string, args ...interface{}) {
@@ -270,9 +277,16 @@ func (vc *VC) heap(st *State, name string, s *Sort) *Term {
 		return t
 	}
 	init := name + "_0"
+	first := !vc.declSet[init]
 	vc.declare(init, s)
 	t := T(s, init)
 	st.heaps[name] = t
+	if first && strings.HasPrefix(name, "H_") && s.Elem != nil {
+		// entry-state well-formedness: nothing reachable at entry points beyond alloc_0
+		if f := vc.heapFacts(t, s.Elem, T(sortInt, "alloc_0")); f != nil {
+			vc.axiom(f.S)
+		}
+	}
 	return t
 }
 
